@@ -320,6 +320,10 @@ fn deliver_checked<M: Machine>(fw: &mut FWorld<M>, dst: u16, stream: usize, styl
             expected_err = Some(Expect::NonPositive(dec::<M>(recs[0][i])));
             if absorbs_prefix::<M>(style) {
                 accepted[0].truncate(i);
+                // an `extend` that is atomic (absorbs nothing when it fails) also "leaves the
+                // accumulated state unchanged": accepted as an alternative for the styles that
+                // hand the library more than one record per call
+                alt_nothing = !matches!(style % 10, 0 | 7 | 8);
             } else {
                 accepted[0].clear();
             }
@@ -371,6 +375,7 @@ fn deliver_checked<M: Machine>(fw: &mut FWorld<M>, dst: u16, stream: usize, styl
                     accepted = idx.clone();
                     if absorbs_prefix::<M>(style) {
                         accepted[0].truncate(i);
+                        alt_nothing = !matches!(style % 10, 0 | 7 | 8);
                     } else {
                         accepted[0].clear();
                     }
@@ -817,7 +822,10 @@ pub fn generate<M: Machine>(property: &str, verif_seed: u64, run: u64, mode: Mod
     let mut r = Rng::new(mix(verif_seed, &tag, run));
     let flt = M::FLT;
     let positive = matches!(M::TRANSFORM, Transform::Ln | Transform::Recip);
-    let max_len = *r.pick(&[4usize, 8, 16, 64]);
+    // most tapes are short (few records make most bugs); one run in ten has long deliveries
+    // (hundreds of records per call, so that block-wise accumulation inside a call matters)
+    let big_chunks = r.chance(0.1);
+    let max_len = if big_chunks { 700 } else { *r.pick(&[4usize, 8, 16, 64]) };
     let len0 = r.usize_in(0, max_len);
     let len1 = if M::STREAMS == 2 { if M::LOCKSTEP { len0 } else { r.usize_in(0, max_len) } } else { 0 };
     let fams: [u8; 5] = [0, 2, 3, 5, 7];
@@ -900,7 +908,7 @@ pub fn generate<M: Machine>(property: &str, verif_seed: u64, run: u64, mode: Mod
                 } else {
                     0
                 };
-                let len = r.usize_in(0, 6) as u32;
+                let len = if big_chunks { r.usize_in(100, 400) as u32 } else { r.usize_in(0, 6) as u32 };
                 let style = *r.pick(&styles);
                 let dst = r.below(n_workers as u64) as u16;
                 let dual = M::LOCKSTEP || (M::FAMILY == Family::Unpaired && unpaired_style_is_dual(style));
@@ -921,7 +929,7 @@ pub fn generate<M: Machine>(property: &str, verif_seed: u64, run: u64, mode: Mod
                     let kind = *r.pick(&kinds);
                     let (_, payload) = *r.pick(&payloads);
                     let fstream = if M::LOCKSTEP { r.below(2) as u8 } else { stream as u8 };
-                    tr.events.push(Event::Fault { dst, stream: fstream, len, style, kind, pos: r.below(8) as u32, payload });
+                    tr.events.push(Event::Fault { dst, stream: fstream, len, style, kind, pos: if big_chunks { r.below(400) as u32 } else { r.below(8) as u32 }, payload });
                 } else {
                     tr.events.push(Event::Deliver { dst, stream: stream as u8, len, style, ctor: r.below(M::N_EMPTY as u64) as u8 });
                 }
